@@ -1,18 +1,20 @@
 // c14-translate regenerates, from the repository given by -repo,
 //
-//	coq/Gen/GlfTables.v  the five []string tables of shovel/glf/filter.go and the
-//	                     sequence of `if any(needs, X) { f.UseY = true; needs = difference(needs, Z) }`
-//	                     blocks of glf.New, in source order
-//	coq/Gen/GetFields.v  the case labels of dig.logWithCtx.get with the item each
-//	                     one reads (ctx / header / tx / receipt / log / trace) and the
-//	                     accessor expression
+//	coq/Gen/GlfTables.v   the five []string tables of shovel/glf/filter.go and the
+//	                      sequence of `if any(needs, X) { f.UseY = true; needs = difference(needs, Z) }`
+//	                      blocks of glf.New, in source order                      (glf.go, go/ast)
+//	coq/Gen/GetFields.v   the case labels of dig.logWithCtx.get with the struct field
+//	                      (Declaring.Field) each one returns and its item class    (typed.go)
+//	coq/Gen/FetchFills.v  for each request of jrpc2.Client (numbers, headers, blocks,
+//	                      receipts, logs, traces) the struct fields it fills       (typed.go)
+//	coq/Gen/GetDispatch.v the switch / if statements of Client.Get as data         (typed.go)
 //
-// It refuses (exit 2, "shape changed") when the source no longer has the
-// syntactic shape it understands.  go/ast only; no type checking, no network.
+// It refuses (exit 2, "shape changed") when the source no longer has the shape
+// it understands.  typed.go type-checks eth, jrpc2 and dig with go/packages
+// (offline: module cache only).
 package main
 
 import (
-	"flag"
 	"fmt"
 	"go/ast"
 	"go/parser"
@@ -20,7 +22,6 @@ import (
 	"go/token"
 	"os"
 	"path/filepath"
-	"sort"
 	"strconv"
 	"strings"
 )
@@ -197,152 +198,4 @@ func glf(repo string) string {
 	sb.WriteString("(* the if-blocks of glf.New in source order: any(needs, difference(base, minus...)) => flag; needs -= remove *)\n")
 	sb.WriteString("Definition glf_steps : list step := [\n  " + strings.Join(steps, ";\n  ") + "\n].\n")
 	return sb.String()
-}
-
-// ---- eth/types.go: fields of Receipt (promoted into Tx)
-func receiptFields(repo string) map[string]bool {
-	fset := token.NewFileSet()
-	f := parse(fset, filepath.Join(repo, "eth/types.go"))
-	res := map[string]bool{}
-	ok := false
-	ast.Inspect(f, func(n ast.Node) bool {
-		ts, is := n.(*ast.TypeSpec)
-		if !is || ts.Name.Name != "Receipt" {
-			return true
-		}
-		st, is := ts.Type.(*ast.StructType)
-		if !is {
-			return true
-		}
-		ok = true
-		for _, fl := range st.Fields.List {
-			for _, nm := range fl.Names {
-				res[nm.Name] = true
-			}
-		}
-		return false
-	})
-	if !ok {
-		die("eth.Receipt struct not found")
-	}
-	return res
-}
-
-// ---- dig/dig.go: logWithCtx.get
-func getFields(repo string) string {
-	rf := receiptFields(repo)
-	fset := token.NewFileSet()
-	f := parse(fset, filepath.Join(repo, "dig/dig.go"))
-	var sw *ast.SwitchStmt
-	for _, d := range f.Decls {
-		fd, ok := d.(*ast.FuncDecl)
-		if !ok || fd.Name.Name != "get" || fd.Recv == nil || !strings.Contains(exprString(fset, fd.Recv.List[0].Type), "logWithCtx") {
-			continue
-		}
-		for _, st := range fd.Body.List {
-			if s, ok := st.(*ast.SwitchStmt); ok && exprString(fset, s.Tag) == "name" {
-				sw = s
-			}
-		}
-	}
-	if sw == nil {
-		die("logWithCtx.get: switch name {...} not found")
-	}
-	type entry struct{ name, class, acc string }
-	var entries []entry
-	for _, c := range sw.Body.List {
-		cc := c.(*ast.CaseClause)
-		if cc.List == nil {
-			continue // default
-		}
-		// the value returned on the normal path: the last return statement of the clause
-		var ret ast.Expr
-		for _, st := range cc.Body {
-			if r, ok := st.(*ast.ReturnStmt); ok && len(r.Results) == 1 {
-				ret = r.Results[0]
-			}
-		}
-		if ret == nil {
-			die("logWithCtx.get: case %s has no return", exprString(fset, cc.List[0]))
-		}
-		acc := exprString(fset, ret)
-		// `d` returned after `d, err := lwc.t.Signer()`
-		if id, ok := ret.(*ast.Ident); ok {
-			for _, st := range cc.Body {
-				if as, ok := st.(*ast.AssignStmt); ok && len(as.Lhs) >= 1 && exprString(fset, as.Lhs[0]) == id.Name && len(as.Rhs) == 1 {
-					acc = exprString(fset, as.Rhs[0])
-				}
-			}
-		}
-		acc = strings.TrimPrefix(acc, "&")
-		acc = strings.TrimSuffix(acc, ".Bytes()")
-		var class string
-		switch {
-		case strings.HasPrefix(acc, "wctx."):
-			class = "ICtx"
-		case strings.HasPrefix(acc, "lwc.b."):
-			class = "IHeader"
-		case strings.HasPrefix(acc, "lwc.l."):
-			class = "ILog"
-		case strings.HasPrefix(acc, "lwc.ta."):
-			class = "ITrace"
-		case strings.HasPrefix(acc, "lwc.t."):
-			class = "ITx"
-			parts := strings.Split(strings.TrimPrefix(acc, "lwc.t."), ".")
-			if parts[0] == "Receipt" || rf[strings.TrimSuffix(parts[0], "()")] {
-				class = "IReceipt"
-			}
-		default:
-			die("logWithCtx.get: cannot classify %q", acc)
-		}
-		acc = strings.TrimPrefix(acc, "lwc.")
-		for _, l := range cc.List {
-			bl, ok := l.(*ast.BasicLit)
-			if !ok || bl.Kind != token.STRING {
-				die("logWithCtx.get: non-literal case label")
-			}
-			s, _ := strconv.Unquote(bl.Value)
-			entries = append(entries, entry{s, class, acc})
-		}
-	}
-	if len(entries) < 10 {
-		die("logWithCtx.get: only %d labels found", len(entries))
-	}
-	var sb strings.Builder
-	sb.WriteString("(* GENERATED by harness/cmd/c14-translate from dig/dig.go (logWithCtx.get) and eth/types.go - do not edit *)\n")
-	sb.WriteString("From Coq Require Import List String.\nFrom Shovel Require Import Model.Plan.\nImport ListNotations.\nOpen Scope string_scope.\n\n")
-	sb.WriteString("(* case label, item the value is read from, accessor *)\n")
-	sb.WriteString("Definition get_fields : list field := [\n")
-	for i, e := range entries {
-		sep := ";"
-		if i == len(entries)-1 {
-			sep = ""
-		}
-		fmt.Fprintf(&sb, "  mkField %s %s %s%s\n", coqStr(e.name), e.class, coqStr(e.acc), sep)
-	}
-	sb.WriteString("].\n")
-	return sb.String()
-}
-
-func main() {
-	repo := flag.String("repo", "/repo", "repository root")
-	out := flag.String("out", ".", "output directory (coq/Gen)")
-	flag.Parse()
-	files := map[string]string{"GlfTables.v": glf(*repo), "GetFields.v": getFields(*repo)}
-	names := make([]string, 0, len(files))
-	for n := range files {
-		names = append(names, n)
-	}
-	sort.Strings(names)
-	for _, n := range names {
-		p := filepath.Join(*out, n)
-		old, err := os.ReadFile(p)
-		if err == nil && string(old) == files[n] {
-			continue // unchanged: keep the timestamp, no rebuild
-		}
-		if err := os.WriteFile(p, []byte(files[n]), 0o644); err != nil {
-			fmt.Fprintln(os.Stderr, "c14-translate:", err)
-			os.Exit(1)
-		}
-	}
 }
